@@ -13,7 +13,8 @@
    4. [read_quoted] — parseQuotedStringLiteral / the template parser restricted
                  to literal-only strings: concatenation of the un-escaped
                  QuotedLit tokens; anything else is an explicit outcome.
-   5. [current_labels] — hclwrite blockLabels.Current (ast_block.go:144-186).
+   5. [current_labels] — hclwrite blockLabels.Current (ast_block.go:138-200; the
+                 version that joins all literal tokens of a label).
 
    Domain: the byte strings are (lax) UTF-8 as the scanners' AnyUTF8 pattern
    understands it; a malformed sequence is the explicit outcome LBadUtf8 /
@@ -343,16 +344,30 @@ Inductive label_node :=
 | LQuoted (ts : list tok)
 | LIdent (t : tok).
 
+(* the loop over tokens[1 : len(tokens)-1]: every token must be a TokenQuotedLit
+   that un-escapes without error diagnostics; the parts are joined *)
+Fixpoint join_lits (ts : list tok) : option (list Z) :=
+  match ts with
+  | [] => Some []
+  | t :: r =>
+      if fst t =? TokenQuotedLit then
+        match unescape (snd t) with
+        | UOk s [] => match join_lits r with Some x => Some (s ++ x) | None => None end
+        | _ => None
+        end
+      else None
+  end.
+
 Definition current_label (n : label_node) : list (list Z) :=
   match n with
   | LIdent t => if fst t =? TokenIdent then [snd t] else []
   | LQuoted ts =>
       match ts with
-      | [o; l; c] =>
-          if (fst o =? TokenOQuote) && (fst l =? TokenQuotedLit) && (fst c =? TokenCQuote) then
-            match unescape (snd l) with
-            | UOk s [] => [s]
-            | _ => []
+      | o :: ((_ :: _ :: _) as r) =>          (* len(tokens) >= 3 *)
+          if (fst o =? TokenOQuote) && (fst (last r o) =? TokenCQuote) then
+            match join_lits (removelast r) with
+            | Some s => [s]
+            | None => []
             end
           else []
       | [o; c] => if (fst o =? TokenOQuote) && (fst c =? TokenCQuote) then [[]] else []
